@@ -29,6 +29,14 @@ class FixedRng:
     def randint(self, a, b):
         return a + self.v % (b - a + 1)
 
+    def getrandbits(self, k):
+        return self.v % (1 << k)
+
+    def randrange(self, a, b=None):
+        if b is None:
+            a, b = 0, a
+        return a + self.v % (b - a)
+
 
 def enc_arg(v):
     if v is None:
@@ -133,6 +141,15 @@ def correspond(ctx):
                         ans.append("err " + errname(e))
                     finally:
                         uh.rng = old
+                    # the whole constructor path of hash(): generated cost must pass the handler's own _norm_rounds
+                    qs.append(f"genc:{draw}:{fv}")
+                    uh.rng = FixedRng(draw)
+                    try:
+                        ans.append("ok " + str(cur(use_defaults=True).rounds))
+                    except Exception as e:  # noqa: BLE001
+                        ans.append("err " + errname(e))
+                    finally:
+                        uh.rng = old
                 for r in sorted({rng.choice(points), lo, d} | ({hi} if hi else set())):
                     if r < lo or (hi and r > hi):
                         continue
@@ -201,6 +218,21 @@ def search(ctx, broken, seeds):
                 ph = h.using(rounds=probe).hash("pw")
                 if sub.needs_update(ph) != want:
                     return {"input": {"op": "needs_update", "hasher": name, "kwds": kw, "rounds": probe}, "observed": not want, "expected": want}
+        # variation next to the hard limits: the cost hash() generates for itself is never outside them (the constructor
+        # path of hash() is used, so no digest is computed and costs near max_rounds are cheap to probe)
+        if h.rounds_cost != "log2":
+            for dflt in sorted({lo, lo + 1, lo + 3, min(hi, lo + 40), hi, hi - 1, hi - 3, max(lo, hi - 40)}):
+                for vary in (1, 7, 50, 0.05, 0.5):
+                    kw = dict(default_rounds=dflt, vary_rounds=vary)
+                    sub = h.using(**kw)
+                    for _ in range(25):
+                        try:
+                            r = sub(use_defaults=True).rounds
+                        except Exception as e:  # noqa: BLE001
+                            return {"input": {"op": "generate", "hasher": name, "kwds": kw}, "observed": errname(e) + ": " + str(e),
+                                    "expected": f"a cost inside the hard limits [{lo}, {hi}]"}
+                        if not lo <= r <= hi:
+                            return {"input": {"op": "generate", "hasher": name, "kwds": kw}, "observed": r, "expected": f"inside [{lo}, {hi}]"}
         # hard limits: strict refuses, relaxed clamps
         for key in ("min_rounds", "max_rounds", "default_rounds", "rounds"):
             for v, clamp in ((lo - 1, lo), (hi + 1, hi)):
@@ -248,5 +280,18 @@ def replay(ctx, inp):
             return {"fails": True, "observed": "accepted"}
         except ValueError as e:
             return {"fails": False, "observed": "refused: " + str(e)}
+    if inp.get("op") == "generate":
+        from passlib import registry
+
+        h = registry.get_crypt_handler(inp["hasher"])
+        sub = h.using(**inp["kwds"])
+        for _ in range(400):
+            try:
+                r = sub(use_defaults=True).rounds
+            except Exception as e:  # noqa: BLE001
+                return {"fails": True, "observed": errname(e) + ": " + str(e)}
+            if not h.min_rounds <= r <= h.max_rounds:
+                return {"fails": True, "observed": r}
+        return {"fails": False, "observed": "400 generated costs inside the hard limits"}
     r = search(ctx, [], [])
     return {"fails": r is not None, "observed": r}
